@@ -442,6 +442,10 @@ func (pg *patchGen) genOp0(cur interface{}) string {
 		p := genPointer(cur, false, pg.odd)
 		if v, ok := lookup(cur, p); ok && chance(pg.pTestOK) {
 			return fmt.Sprintf(`{"op":"test","path":%s,"value":%s}`, jsonStr(p), respell(v, g))
+		} else if ok && chance(0.5) {
+			// a near miss: the value found there with one small difference (a member renamed, a null
+			// member traded for another name, an element changed, dropped or added)
+			return fmt.Sprintf(`{"op":"test","path":%s,"value":%s}`, jsonStr(p), respell(nearMiss(v), g))
 		}
 		if chance(0.1) {
 			return fmt.Sprintf(`{"op":"test","path":%s}`, jsonStr(p))
@@ -449,6 +453,91 @@ func (pg *patchGen) genOp0(cur interface{}) string {
 		return fmt.Sprintf(`{"op":"test","path":%s,"value":%s}`, jsonStr(p), genValue(vg, 2))
 	}
 }
+
+// nearMiss returns a copy of a decoded value with exactly one small difference somewhere inside
+func nearMiss(v interface{}) interface{} {
+	switch t := v.(type) {
+	case map[string]interface{}:
+		m := map[string]interface{}{}
+		keys := []string{}
+		for k, x := range t {
+			m[k] = x
+			keys = append(keys, k)
+		}
+		sortStrings(keys)
+		fresh := func() string {
+			for _, k := range []string{"z", "q", "nn", "a", "b", "zz0"} {
+				if _, ok := m[k]; !ok {
+					return k
+				}
+			}
+			return "zzzz"
+		}
+		if len(keys) == 0 {
+			m[fresh()] = nil
+			return m
+		}
+		k := keys[rng.Intn(len(keys))]
+		for _, k2 := range keys { // prefer a member holding null
+			if m[k2] == nil && chance(0.6) {
+				k = k2
+				break
+			}
+		}
+		switch rng.Intn(5) {
+		case 0: // rename the member
+			x := m[k]
+			delete(m, k)
+			m[fresh()] = x
+		case 1: // trade it for another member (same count)
+			delete(m, k)
+			m[fresh()] = stdjson.Number("7")
+		case 2: // drop it
+			delete(m, k)
+		case 3: // one more member, holding null
+			m[fresh()] = nil
+		default:
+			m[k] = nearMiss(m[k])
+		}
+		return m
+	case []interface{}:
+		a := append([]interface{}{}, t...)
+		if len(a) == 0 {
+			return append(a, nil)
+		}
+		i := rng.Intn(len(a))
+		switch rng.Intn(4) {
+		case 0:
+			return a[:len(a)-1]
+		case 1:
+			return append(a, nil)
+		case 2:
+			if len(a) > 1 {
+				a[0], a[len(a)-1] = a[len(a)-1], a[0]
+				return a
+			}
+			fallthrough
+		default:
+			a[i] = nearMiss(a[i])
+		}
+		return a
+	case nil:
+		return pickI(false, stdjson.Number("0"), "", map[string]interface{}{}, []interface{}{})
+	case bool:
+		return !t
+	case string:
+		return t + "x"
+	case stdjson.Number:
+		if chance(0.5) {
+			return stdjson.Number(string(t) + "0")
+		}
+		return nil
+	default:
+		return nil
+	}
+}
+
+func pickI(xs ...interface{}) interface{} { return xs[rng.Intn(len(xs))] }
 
 func envInt(name string, dflt int64) int64 {
 	if s := os.Getenv(name); s != "" {
